@@ -22,6 +22,7 @@ import (
 	"verif/internal/evid"
 	"verif/internal/rewrite"
 	"verif/internal/simbuild"
+	"verif/internal/xch"
 )
 
 // ---- mirror of the harness types (simsrc/gensim)
@@ -399,6 +400,13 @@ func (e *Engine) Corpus() ([]Input, error) {
 			continue
 		}
 		add("corpus-config", filepath.Join(e.S.Src, pair[1]), pair[0], string(b), false)
+	}
+	// the feature-matrix documents of the typed exchange (internal/xch/matrix.go): every parameter cell, media type,
+	// encoding, response structure and security structure is also a generation workload
+	for _, p := range xch.WriteMatrix(filepath.Join(e.S.Dir, "matrix")) {
+		for _, fn := range []string{"default", "all-features"} {
+			out = append(out, Input{Name: "matrix/" + filepath.Base(p) + " [" + fn + "]", In: GenInput{Spec: p, Config: featureConfigs()[fn]}, Class: "corpus"})
+		}
 	}
 	// order-stress worlds, in every feature configuration
 	wdir := filepath.Join(build.VerifDir, "worlds", "gen")
@@ -1285,6 +1293,7 @@ func (e *Engine) replay(c *core.Ctx) (*core.Outcome, error) {
 }
 
 var scratchRe = regexp.MustCompile(`^.*/verif\.[A-Za-z0-9]+\.\d+/ogen/`)
+var mxRe = regexp.MustCompile(`/matrix/mx_[a-z]+\.json$`)
 var asmRe = regexp.MustCompile(`/assembled/asm-(-?\d+)-(\d+)\.yml$`)
 
 // rebase maps a spec path of the run that found a violation to this run's scratch copy; assembled specs
@@ -1299,6 +1308,14 @@ func (e *Engine) rebase(p string) string {
 		np := filepath.Join(adir, filepath.Base(p))
 		_ = os.WriteFile(np, []byte(Assemble(rand.New(rand.NewSource(seed*1_000_003+k)))), 0o644)
 		return np
+	}
+	if mxRe.MatchString(p) {
+		// a matrix document: written afresh (a pure function of its name)
+		for _, np := range xch.WriteMatrix(filepath.Join(e.S.Dir, "matrix")) {
+			if filepath.Base(np) == filepath.Base(p) {
+				return np
+			}
+		}
 	}
 	if strings.HasPrefix(p, build.VerifDir+"/") || !scratchRe.MatchString(p) {
 		// a world under /verif/worlds: the same relative path under this run's VERIF_DIR
